@@ -6,6 +6,10 @@ HERE = os.path.dirname(os.path.abspath(__file__))
 TECH = "deterministic simulation with fault injection: seeded runs of the real library on a simulated block device (SimDisk); "
 
 CHECKS = {
+ "C14": dict(level="exploration", design="§5 C14",
+   text="The same seeded FAT12/16/32 history (or GPT/MBR table history with GUIDs given) is executed in two separate OS processes under testing/synctest's fake clock: A at fake time T0, B after a seeded clock jump (seconds to 40 years) with further jumps between operations, at another start offset inside a device with other surrounding noise and another entropy seed, with a fixed seeded SOURCE_DATE_EPOCH (incl. 0, pre-1980, odd seconds); the canonical hashes of the volume range must be equal. A third, non-reproducible control execution must differ, which shows the clock fault reaches the code (probe control-differs).",
+   note="Seeded sampling. Bytes inside the range before Create are zero in both executions. The fake clock is synctest's; each execution is a child test binary (go test -c) because synctest needs a *testing.T.",
+   technique=TECH+"clock-jump fault injection (testing/synctest fake clock) + process boundary + offset/noise/entropy variation, image hash equality"),
  "C10": dict(level="exploration", design="§5 C10",
    text="Seeded histories of Read(len)/Seek(off,whence)/Close/re-open on handles of files of known content whose sizes sit on 0/1/unit-1/unit/unit+1/multi-unit boundaries, on images of every filesystem kind (fat12/16/32, ext4 written by the library and by mke2fs, iso9660 plain/Rock Ridge/Joliet, squashfs with four compressors, without compression and without fragments) built on the simulated device at start 0 or a non-zero offset; every call is compared with a cursor model (bytes.Reader semantics with io.Reader laxity): bytes, counts, io.EOF exactly at the end, Seek results, negative targets refused with the cursor unchanged, Read after Close fails.",
    note="Seeded sampling of call histories. Image construction uses the library's own writers (and mke2fs for ext4); an image that cannot be built or re-opened is skipped here (it is another property's clause).",
